@@ -3,7 +3,7 @@
 EXTENDS Config
 CONSTANT NMods
 E(par, prop, ty, n) == [par |-> par, prop |-> prop, form |-> "P", v |-> [ty |-> ty, n |-> n, m |-> 0]]
-Base == {E("mp", "value", "int", 6), E("n", "value", "int", 10)}
+Base == {E("mp", "value", "int", 6), E("n", "value", "int", 10), E("r1", "value", "int", 4), E("r2", "value", "int", 6)}
 MCCfgs == { Base,                                               \* healthy, one configured write
             Base \cup {E("a", "value", "int", 100), E("a", "max", "int", 120)},   \* two writes, limit override
             Base \cup {E("a", "value", "int", 300)},            \* outside: loose
